@@ -388,6 +388,13 @@ class SNum(object):
 
     # ---- arithmetic
     def _bin(self, o, op):
+        import numpy as _np
+        if isinstance(o, _np.ndarray) and o.dtype == object:
+            # a NumPy object array of proxies (e.g. the bin counts of np.histogram): element-wise, as NumPy would do
+            out = _np.empty(o.shape, dtype=object)
+            for i in _np.ndindex(*o.shape):
+                out[i] = self._bin(o[i], op)
+            return out
         o2 = SNum.lift(o)
         if o2 is None:
             return NotImplemented
